@@ -290,7 +290,7 @@ def parseCli (shape : String) (ts : List String) : Option CliCase := do
   let (tst, ts) ← optCode "TS" ts
   if ts ≠ [] then none
   if snd.any (· == Call.pop) || acc.any (· == Call.pop) then none
-  pure { shape, snd, acc, umdEnc, umdAcc, k, resp := { encVals, hdrStatus := hs, frames, trlStatus := tst } }
+  pure { shape, snd, acc, umdEnc, umdAcc, k, resp := { encVals, hdrStatus := hs, frames, trlStatus := tst, accVals := [], peerCls := .peerStatus } }
 
 /-- `send_compressed` calls: the last one wins -/
 def sendOf (cs : List Call) : Option Enc :=
@@ -334,11 +334,75 @@ def handleCli (shape : String) (ts obs : List String) : String × String :=
                  ("acceptable-response-delivered", Spec.Compression.cliDeliver accept c.shape c.resp o)]
     (showCli model, v)
 
+/-! ### pair: a real client against a real server -/
+
+structure PairCase where
+  shape : Shape
+  route : String
+  csnd : List Call
+  cacc : List Call
+  sacc : List Call
+  ssnd : List Call
+  k : Nat
+  h : Handler
+
+def parsePair (shape : String) (ts : List String) : Option PairCase := do
+  let shape ← shapeOf shape
+  let (route, ts) ← tok ts
+  let route := route.toLower
+  let (csnd, ts) ← tok ts
+  let csnd ← callsOf csnd
+  let (cacc, ts) ← tok ts
+  let cacc ← callsOf cacc
+  let (sacc, ts) ← tok ts
+  let sacc ← callsOf sacc
+  let (ssnd, ts) ← tok ts
+  let ssnd ← callsOf ssnd
+  let (_, ts) ← lit "K" ts
+  let (k, ts) ← num ts
+  let (_, ts) ← lit "H" ts
+  let (kind, ts) ← tok ts
+  let (n, ts) ← num ts
+  let (dis, ts) ← num ts
+  let (_, ts) ← lit "Q" ts
+  let (_, ts) ← hexTok ts
+  let (_, ts) ← lit "R" ts
+  let (_, ts) ← hexTok ts
+  if ts ≠ [] then none
+  let h ← (if kind = "reply" then some (Handler.reply n (dis ≠ 0) [])
+           else if kind = "fail" then some (Handler.fail n) else none)
+  if route ≠ "d" ∧ route ≠ "c" then none
+  if csnd.any (· == Call.pop) || cacc.any (· == Call.pop) then none
+  pure { shape, route, csnd, cacc, sacc, ssnd, k, h }
+
+def splitAt (marker : String) (ts : List String) : List String × List String :=
+  (ts.takeWhile (· ≠ marker), (ts.dropWhile (· ≠ marker)).drop 1)
+
+def handlePair (shape : String) (ts obs : List String) : String × String :=
+  match parsePair shape ts with
+  | none => bad
+  | some c =>
+    let ccfg : Compression.CliCfg := { send := sendOf c.csnd, accept := Compression.runCalls c.cacc }
+    let (so, co) := Compression.pair ccfg (slotsOf c.route c.sacc) (slotsOf c.route c.ssnd) c.shape c.k c.h
+    let srvT := showSrv so
+    let model := "p" ++ (srvT.splitOn " ").headD "" ++ " S " ++ srvT ++ " C " ++ showCli co
+    let (_, rest) := splitAt "S" obs
+    let (sToks, cToks) := splitAt "C" rest
+    let v := match parseSrvObs sToks, parseCliObs cToks with
+      | some os, some oc =>
+        verdict [("tonic-pair-negotiates-and-delivers",
+          Spec.Compression.pairOk (sendOf c.csnd) (Spec.Compression.enabledAfter c.cacc)
+            (Spec.Compression.enabledAfter c.sacc) (Spec.Compression.enabledAfter c.ssnd)
+            c.shape c.k c.h os oc)]
+      | _, _ => "fail:unparsable-observation"
+    (model, v)
+
 def handle (case obs : List String) : String × String :=
   match case with
   | k :: ts =>
     if k.startsWith "srv." then handleSrv (k.drop 4).toString ts obs
     else if k.startsWith "cli." then handleCli (k.drop 4).toString ts obs
+    else if k.startsWith "pair." then handlePair (k.drop 5).toString ts obs
     else bad
   | _ => bad
 
